@@ -691,10 +691,10 @@ class cleanup_functools_wrapper(object):
 
 
 def autoforwards_function(func, args, kwargs):
-    # functools.wraps copies the annotations of the wrapped function: they
-    # are evaluated where that function lives, which the chain that is about
-    # to be set aside leads to
-    owner = _signatures._annotations_owner(func)
+    # functools.wraps copies the annotations of the wrapped function (unless
+    # told not to): those are evaluated where that function lives, which
+    # the chain that is about to be set aside leads to
+    owner = _signatures._copied_annotations_owner(func)
     try:
         with cleanup_functools_wrapper(func):
             sig = _util.funcsigs.signature(func)
